@@ -121,6 +121,7 @@ class Run:
         self.stuck = False
         self.handovers = 0
         self.giveups = 0
+        self.aborted = False
         self.last_keys: dict = {}
 
     # ------------------------------------------------------------------ worker programs
@@ -249,6 +250,14 @@ class Run:
             res[w] = (kind, key)
         return res
 
+    def real_eff(self, w):
+        """task.effective_priority() of the real object; a raising call is an oracle failure"""
+        try:
+            return frac(self.tasks[w].effective_priority())
+        except BaseException as e:  # noqa: BLE001
+            self.fail("eff-raises", f"worker {w}: effective_priority() raised {type(e).__name__}")
+            return None
+
     def observe(self) -> str:
         rm = self.ready_map()
         parts = []
@@ -270,7 +279,8 @@ class Run:
                 hl = sorted(self.lockidx[id(x)] for x in t._holding_locks)
                 hold = ".".join(map(str, hl)) or "-"
                 wo = self.lockidx[id(t._waiting_on)] if t._waiting_on is not None else "-"
-                eff = fr(frac(t.effective_priority()))
+                re = self.real_eff(w)
+                eff = fr(re) if re is not None else "ERR"
             else:
                 hold, wo, eff = "-", "-", "0/1"
             key = rm[w][1] if w in rm else None
@@ -345,8 +355,15 @@ class Run:
         for w, t in enumerate(self.tasks):
             if self.case["workers"][w]["kind"] != "P":
                 continue
-            real = frac(t.effective_priority())
+            real = self.real_eff(w)
             mine = self.eff(w)
+            hl = sorted(self.lockidx[id(x)] for x in t._holding_locks)
+            wo = self.lockidx[id(t._waiting_on)] if t._waiting_on is not None else None
+            if hl != sorted(self.hold.get(w, ())) or wo != self.waiting.get(w):
+                self.fail("holding-mismatch", f"worker {w}: _holding_locks={hl} _waiting_on={wo} but it "
+                          f"is inside {sorted(self.hold.get(w, ()))} and waits for {self.waiting.get(w)}")
+            if real is None:
+                continue
             if real != mine:
                 self.fail("eff-mismatch", f"worker {w}: effective_priority()={fr(real)} but the "
                           f"wait-for graph gives {fr(mine)} (holding {sorted(self.hold.get(w, ()))}, "
@@ -360,9 +377,10 @@ class Run:
             h = self.holder.get(k)
             if h is None or self.case["workers"][h]["kind"] != "P":
                 continue
-            hw = frac(self.tasks[h].effective_priority())
-            ww = (frac(self.tasks[w].effective_priority())
-                  if self.case["workers"][w]["kind"] == "P" else Fraction(0))
+            hw = self.real_eff(h)
+            ww = self.real_eff(w) if self.case["workers"][w]["kind"] == "P" else Fraction(0)
+            if hw is None or ww is None:
+                continue
             if hw > ww:
                 self.fail("holder-less-urgent", f"worker {w} (eff {fr(ww)}) waits for lock {k} "
                           f"held by worker {h} whose effective_priority() is {fr(hw)}")
@@ -449,6 +467,19 @@ class Run:
             self.tags.add("fault-other")
 
     def do_env(self, act):
+        """one environment action; an exception escaping from the library or the loop here is a
+        finding (reported as loop-error), after which the run is abandoned"""
+        try:
+            self._do_env(act)
+        except core.InfraError:
+            raise
+        except BaseException as e:  # noqa: BLE001
+            self.fail("loop-error", f"environment action {act[1:]} raised {type(e).__name__}")
+            self.aborted = True
+            self.env = []
+            self.loop.stop()
+
+    def _do_env(self, act):
         P, I = _mods()
         kind = act[1]
         if kind == "set":
@@ -497,7 +528,7 @@ class Run:
     def pump(self):
         while self.env and self.env[0][0] <= self.n:
             self.do_env(self.env.pop(0))
-        while self.ready_len() == 0:
+        while self.ready_len() == 0 and not self.aborted:
             if self.env:
                 self.do_env(self.env.pop(0))
                 continue
@@ -569,6 +600,8 @@ class Run:
         return self
 
     def final_checks(self):
+        if self.aborted:
+            return
         unfinished = [w for w, t in enumerate(self.tasks) if not t.done()]
         if unfinished:
             self.stuck = True
@@ -850,6 +883,8 @@ def explore(ctx, cases, kinds, theorem_of, sched_oracle=False, label="", max_rep
             again = fails_with(small, {kind}, sched_oracle) or (kind, detail)
             ctx.violation(kind, f"{label}{again[1]}", small, expected=kinds[kind],
                           observed=again[1], theorem=theorem_of.get(kind, ""))
+        if r.aborted:
+            r.lines, r.expect = [], []          # nothing meaningful to replay
         spans.append((len(all_lines) + 1, len(r.lines)))
         all_lines.append("reset")
         all_lines.extend(r.lines)
